@@ -57,3 +57,15 @@ def shrink_lists(plan):
 
 def simplify(plan):
     yield from cs.simplify(plan)
+
+
+def post_batch(tier, seed, agg):
+    """Thorough tier: a sample of the same plans with real numba compilation of the stepping loops."""
+    import os
+
+    if tier != "thorough" and not os.environ.get("VERIF_JIT"):
+        return None
+    from sim.core import jit_sample
+    import sys
+
+    return jit_sample(sys.modules[__name__], seed, runs=64, budget_s=400, timeout_s=600)
